@@ -399,7 +399,10 @@ class Check(common.Check):
         cases = [c for c in (self.default_case(k) for k in CTORS) if c]
         for _ in range(n):
             c = self.gen_mc_case(rng) if rng.random() < 0.12 else None
-            cases.append(c or self.gen_case(rng))
+            c = c or self.gen_case(rng)
+            if not c.get('mc') and rng.random() < 0.3:      # the duration property: setter after the encodings were read
+                c['dur'] = fq(Fraction(rng.choice([1, 3, 5, 7, 9, 24]), rng.choice([1, 2, 4, 8])))
+            cases.append(c)
         return cases
 
     # ------------------------------------------------------------------ runners
@@ -414,7 +417,7 @@ class Check(common.Check):
         for c in cases:                      # a multichannel case is one model run per channel
             chs = self.channels(c) if c.get('mc') else [c]
             spans.append(len(chs) if c.get('mc') else 0)
-            lines += [json.dumps(ch) for ch in chs]
+            lines += [json.dumps({k: v for k, v in ch.items() if k != 'dur'}) for ch in chs]
         out, err = common.run_driver('Sc3Verif/C19/Driver.lean', lines)
         if out is None:
             raise RuntimeError('driver failed: ' + err)
@@ -484,6 +487,19 @@ class Check(common.Check):
                 what = (f'a second call with the same argument objects gives {ru["second"][1]}, '
                         f'the first gave {ru["second"][0]}')
             return {'what': f'{case["ctor"]}: {what}', 'signature': 'env:ctor-args'}
+        du = out.get('dur')
+        if du and not isinstance(du, str):      # env.duration = d: the times sum to d, proportions kept
+            d = float(F(case['dur']))
+            t0, t1 = [float(F(x)) for x in du['before']], [float(F(x)) for x in du['after']]
+            tot = sum(t0)
+            if tot > 0:
+                want = [t * d / tot for t in t0]
+                getter = float(F(du['get']))
+                if len(t1) != len(t0) or any(abs(a - b) > 1e-9 * max(1.0, abs(b)) for a, b in zip(t1, want)) \
+                        or abs(getter - d) > 1e-9 * max(1.0, d):
+                    return {'what': f'{case["ctor"]}: after duration = {d} on times {t0} the times are {t1} '
+                                    f'(duration reads {getter}); expected {want}, summing to {d}',
+                            'signature': 'env:duration'}
         # the node-parameter entry point: the control value is the EnvGen array of every channel
         fm, ctl = out.get('fmt'), out.get('ctl')
         if not isinstance(fm, str) and ctl is not None:
